@@ -221,7 +221,14 @@ func (cr *checkRun) run(noSelftest bool) int {
 			fopts := cr.opts
 			fopts.filter = plan.classFilter
 			fopts.workers = cr.opts.workers / 2
-			results[i] = cr.p.verifyFunc(cr.p.funcs[k], cr.p.contracts.Funcs[k], fopts)
+			fr := cr.p.verifyFunc(cr.p.funcs[k], cr.p.contracts.Funcs[k], fopts)
+			if fr.Err == nil && undecidedByTimeout(fr, cr.p.contracts.Funcs[k], plan, cr.known, cr.prop) {
+				// an obligation that ran out of time (machine load, solver luck) is asked again with three
+				// times the limit before it is reported; discharged VCs come back from the cache
+				fopts.timeout *= 3
+				fr = cr.p.verifyFunc(cr.p.funcs[k], cr.p.contracts.Funcs[k], fopts)
+			}
+			results[i] = fr
 		}(i, k)
 	}
 	wg.Wait()
@@ -272,6 +279,34 @@ func (cr *checkRun) run(noSelftest bool) int {
 	fmt.Printf("OK property=%s tier=%s functions=%d obligations=%d discharged=%d vcs=%d not_decided=%d known_findings=%d wall=%.1fs\n",
 		cr.prop, cr.tier, len(cr.funcs), cr.claimed, cr.discharge, cr.vcs, len(cr.notDecided), len(cr.knownHit), time.Since(cr.start).Seconds())
 	return 0
+}
+
+// undecidedByTimeout: some obligation of the function failed without a model (time-out / unknown).
+func undecidedByTimeout(fr *FuncResult, fc *FuncContract, plan propertyPlan, known []KnownFinding, prop string) bool {
+	if fc != nil && fc.NotClaim != "" {
+		return false
+	}
+obls:
+	for _, o := range fr.Obls {
+		class := oblClass(o.Name)
+		if !plan.classFilter(class) || o.Status == "discharged" || o.FailRes.Status == "sat" {
+			continue
+		}
+		if fc != nil {
+			for uc := range fc.Unclaimed {
+				if class == uc || strings.HasPrefix(class, uc+":") || strings.HasPrefix(class, uc+"#") || (strings.HasSuffix(uc, "*") && strings.HasPrefix(class, strings.TrimSuffix(uc, "*"))) {
+					continue obls
+				}
+			}
+		}
+		for _, k := range known {
+			if k.Status == "open" && k.Property == prop && k.Obligation == o.Name {
+				continue obls
+			}
+		}
+		return true
+	}
+	return false
 }
 
 func (cr *checkRun) account(o *OblResult, fn *ssa.Function, fc *FuncContract, plan propertyPlan) {
